@@ -27,6 +27,7 @@ class CfgGen:
         self.names = list(LEAVES[:self.n])
         self.cnt = 0
         self.complements = []
+        self.parents = []
     def leaf(self, nm=None):
         nm = nm or self.rng.choice(self.names)
         return {"k": "str", "id": nm} if self.rng.random() < 0.6 else {"k": "var", "id": nm, "b": [0, 1]}
@@ -51,9 +52,12 @@ class CfgGen:
             default = rng.sample(atoms, 2)         # only the first one counts
         else:
             default = None
+        rid = self.nid()
         if default and default[0] in atoms and len(ch) > 1 and all(c["k"] in ("str", "var") for c in ch):
             self.complements.append([c["id"] for c in ch if c["id"] != default[0]])
-        return {"k": "CcAny", "ch": ch, "default": default, "id": self.nid()}
+            if len(ch) > 2:
+                self.parents.append((default[0], [c["id"] for c in ch if c["id"] != default[0]], rid))
+        return {"k": "CcAny", "ch": ch, "default": default, "id": rid}
     def ccxor(self):
         rng = self.rng
         ch = self.leaves(2, 4)
@@ -65,6 +69,12 @@ class CfgGen:
     def rule(self, depth=1):
         rng = self.rng
         r = rng.random()
+        if self.parents and rng.random() < 0.45:
+            # an untagged twin of the PARENT of a non-default branch: the plain restructured form
+            # Any(default, Any(rest)) under the same (generated or explicit) id as the defaulted rule
+            d0, comp, rid = rng.choice(self.parents)
+            twin = {"k": "Any", "ch": [self.leaf(d0), {"k": "Any", "ch": [self.leaf(i) for i in comp], "id": None}], "id": rid}
+            return twin if rng.random() < 0.3 else {"k": "Imply", "ch": [self.leaf(), twin], "id": self.nid()}
         if self.complements and rng.random() < 0.3:
             # an untagged twin of a non-default branch: a plain Any over the same alternatives, with a
             # generated id (same id as the tagged node), as a rule or under an Imply
@@ -323,9 +333,16 @@ def run(res, tier, seed):
         ast = corpus.pop() if corpus else g.config()
         try:
             cfg = build_tracked(ast)
-            if cfg.errors():
+            errs = [str(getattr(e, "value", e)) for e in cfg.errors()]
+            if errs and errs != ["NON_UNIQUE_SUB_PROPOSITION_SET"]:
                 res.count("skipped_invalid")
                 continue
+            if errs:
+                # a defaulted rule next to its hand-written restructured twin (pg.Any(default, Any(rest)) under the
+                # same id): validation rejects the pair (classes differ), the configurator still builds; the
+                # oracles apply, the correspondence does not (equal-id entries of flatten() are hash-order dependent)
+                res.count("class_mismatch_twin_rejected_by_validation")
+            invalid = bool(errs)
             dicts = gen_prios(rng, cfg, n_dicts)
             dp, cols, dpv, objs, poly = observe(cfg, dicts)
         except Exception as e:
@@ -353,6 +370,8 @@ def run(res, tier, seed):
                 res.count("tied_priorities")
             if len(mags) >= 2 and nd:
                 res.nt(json.dumps([strip(ast), d], sort_keys=True))
+        if invalid:
+            continue
         dpv_cases.append((lambda it, cfg=cfg, dp=dp, cols=cols, dpv=dpv:
                           f"({dump(cfg, it)}, {lst(f'({it.s(k)}, {z(v)})' for k, v in dp.items())}, {lst(it.s(c) for c in cols)}, {lz(dpv)})",
                           {"cfg": strip(ast)}))
